@@ -2138,6 +2138,14 @@ class TLSConnection(TLSRecordLayer):
                             AlertDescription.handshake_failure,
                             "Client certificate is of wrong type"):
                         yield result
+                # EdDSA signatures are defined for TLS 1.2 and later only
+                if privateKey and self.version < (3, 3) and \
+                        privateKey.key_type in ("Ed25519", "Ed448"):
+                    for result in self._sendError(
+                            AlertDescription.handshake_failure,
+                            "Client certificate incompatible with "
+                            "negotiated TLS version"):
+                        yield result
                 # in TLS 1.2 the CertificateVerify names its algorithm: we
                 # need one usable with our key enabled in the settings
                 if privateKey and self.version == (3, 3) and \
